@@ -99,6 +99,9 @@ def check(ctx):
             ctx._record_violation(ob)
         else:
             ctx.add(_Ob(ctx.prop, name, 'native-eval', 'bounded', 'discharged', seconds=secs, bound=bound, detail='Display / serialize_internal followed by parse with the same value type (and by parse_float / parse_integer) returns the value'))
+    ctx.native_enum('parse-float-decimal', dict(module='chardata', check='float_decimal', alphabet=b'0159.eE+-', maxlen=7 if thorough else 6),
+                    'parse_float on decimal / fraction / exponent texts of the numerical lexical form == std conversion of the same text')
+    ctx.native_enum('parse-float-special', dict(module='chardata', check='float_decimal', alphabet=b'INFNa-', maxlen=4), 'parse_float on INF / -INF / NaN')
     ctx.native_enum('parse-float-prefixed', dict(module='chardata', check='float_prefixed', alphabet=b'0127fxXbB.', maxlen=6), 'parse_float on prefixed forms')
     ctx.native_enum('parse-bool', dict(module='chardata', check='bool', alphabet=b'truefals01TF ', maxlen=5), 'parse_bool against the boolean lexical form')
     return ctx.finish(
